@@ -8,7 +8,7 @@ import subprocess
 import sys
 import time
 
-VERIF = "/verif"
+VERIF = os.path.dirname(os.path.dirname(os.path.dirname(os.path.abspath(__file__))))
 REPO = "/repo"
 WORK = os.path.join(VERIF, "work")
 CFG_FLAG = "--cfg typify_verif"
